@@ -126,9 +126,59 @@ fn breaker(a: &[String]) {
                 None => println!("OK breaker history {:?} follows the contract", &a[2..]) }
 }
 
+// ---------------------------------------------------------------------------------------------
+// window <kind> <K>: bounded exhaustive differential run of the real window types against the reference semantics of the
+// property statements (in-order timestamps with ties from a small alphabet, sizes/slides/gaps 0..K).  Used to confirm a solver
+// counterexample natively: REPRODUCED with the first disagreeing configuration and stream.
+fn window(kind: &str, k: usize) {
+    use chrono::{DateTime, Duration, Utc};
+    use std::sync::Arc;
+    use varpulis_runtime::window::{CountWindow, SessionWindow, SlidingCountWindow, SlidingWindow, TumblingWindow};
+    let t0 = DateTime::<Utc>::from_timestamp(1_000_000, 0).unwrap();
+    let mk = |id: usize, t: i64| { let mut e = Event::new("T"); e.timestamp = t0 + Duration::seconds(t); e = e.with_field("id", Value::Int(id as i64)); Arc::new(e) };
+    let ids = |v: &Vec<Arc<Event>>| -> Vec<i64> { v.iter().map(|e| match e.get("id") { Some(Value::Int(i)) => *i, _ => -1 }).collect() };
+    // all non-decreasing timestamp streams of length n over 0..=tmax
+    fn streams(n: usize, tmax: i64, cur: &mut Vec<i64>, out: &mut Vec<Vec<i64>>) {
+        if cur.len() == n { out.push(cur.clone()); return; }
+        let lo = cur.last().cloned().unwrap_or(0);
+        for t in lo..=tmax { cur.push(t); streams(n, tmax, cur, out); cur.pop(); }
+    }
+    let n = k + 3; let tmax = (k + 2) as i64;
+    let mut ss = vec![]; streams(n.min(6), tmax, &mut vec![], &mut ss);
+    let fail = |m: String| { println!("REPRODUCED {m}"); std::process::exit(1); };
+    match kind {
+        "count" => for size in 1..=k { let mut w = CountWindow::new(size); let mut buf: Vec<i64> = vec![];
+            for i in 0..(3 * k + 2) { let got = w.add_shared(mk(i, i as i64)); buf.push(i as i64);
+                let want = if buf.len() >= size { Some(std::mem::take(&mut buf)) } else { None };
+                if got.as_ref().map(ids) != want { fail(format!("CountWindow({size}) event {i}: emitted {:?}, expected {:?}", got.as_ref().map(ids), want)); } } },
+        "sliding-count" => for size in 1..=k { for slide in 1..=k + 1 { let mut w = SlidingCountWindow::new(size, slide); let mut buf: Vec<i64> = vec![]; let mut since = 0;
+            for i in 0..(3 * k + 3) { let got = w.add_shared(mk(i, i as i64)); buf.push(i as i64); since += 1; if buf.len() > size { buf.remove(0); }
+                let want = if buf.len() >= size && since >= slide { since = 0; Some(buf.clone()) } else { None };
+                if got.as_ref().map(ids) != want { fail(format!("SlidingCountWindow({size},{slide}) event {i}: emitted {:?}, expected {:?}", got.as_ref().map(ids), want)); } } } },
+        "tumbling" => for d in 0..=k as i64 { for s in &ss { let mut w = TumblingWindow::new(Duration::seconds(d)); let mut buf: Vec<i64> = vec![]; let mut start: Option<i64> = None;
+            for (i, t) in s.iter().enumerate() { let got = w.add_shared(mk(i, *t)); if start.is_none() { start = Some(*t); }
+                let want = if *t >= start.unwrap() + d { let o = std::mem::take(&mut buf); start = Some(*t); buf.push(i as i64); Some(o) } else { buf.push(i as i64); None };
+                if got.as_ref().map(ids) != want { fail(format!("TumblingWindow({d}s) stream {:?} event {i}: emitted {:?}, expected {:?}", s, got.as_ref().map(ids), want)); } }
+            let rest = w.flush_shared(); if ids(&rest) != buf { fail(format!("TumblingWindow({d}s) stream {:?}: flush returned {:?}, expected {:?}", s, ids(&rest), buf)); } } },
+        "session" => for g in 0..=k as i64 { for s in &ss { let mut w = SessionWindow::new(Duration::seconds(g)); let mut buf: Vec<i64> = vec![]; let mut last: Option<i64> = None;
+            for (i, t) in s.iter().enumerate() { let got = w.add_shared(mk(i, *t));
+                let want = if last.map(|l| *t - l > g).unwrap_or(false) { let o = std::mem::take(&mut buf); buf.push(i as i64); Some(o) } else { buf.push(i as i64); None }; last = Some(*t);
+                if got.as_ref().map(ids) != want { fail(format!("SessionWindow({g}s) stream {:?} event {i}: emitted {:?}, expected {:?}", s, got.as_ref().map(ids), want)); } }
+            let rest = w.flush_shared(); if ids(&rest) != buf { fail(format!("SessionWindow({g}s) stream {:?}: flush returned {:?}, expected {:?}", s, ids(&rest), buf)); } } },
+        "sliding-time" => for size in 0..=k as i64 { for slide in 0..=k as i64 { for s in &ss { let mut w = SlidingWindow::new(Duration::seconds(size), Duration::seconds(slide)); let mut all: Vec<(i64, i64)> = vec![]; let mut last: Option<i64> = None;
+            for (i, t) in s.iter().enumerate() { let got = w.add_shared(mk(i, *t)); all.push((i as i64, *t));
+                let inr: Vec<i64> = all.iter().filter(|(_, u)| *u >= *t - size).map(|(j, _)| *j).collect();
+                let want = if last.map(|l| *t >= l + slide).unwrap_or(true) { last = Some(*t); Some(inr) } else { None };
+                if got.as_ref().map(ids) != want { fail(format!("SlidingWindow({size}s,{slide}s) stream {:?} event {i}: emitted {:?}, expected {:?}", s, got.as_ref().map(ids), want)); } } } } },
+        _ => panic!("window kind {kind}"),
+    }
+    println!("OK window {kind}: real code agrees with the reference semantics on all enumerated configurations (K={k})");
+}
+
 fn main() {
     let a: Vec<String> = std::env::args().collect();
     match a[1].as_str() {
+        "window" => window(&a[2], a[3].parse().unwrap()),
         "breaker" => breaker(&a[2..]),
         // recurse <ExprVariant>: evaluate an expression of that variant in a child process (a stack overflow aborts the process)
         "recurse" => {
